@@ -67,6 +67,9 @@ def _wrap(rng, cirq, op, E, qids, shape, desc):
     if kind == 3 and L.dim_of(shape) <= 16:
         k = int(rng.integers(1, 3))
         cdims = [int(rng.choice([2, 2, 3])) for _ in range(k)]
+        if rng.random() < 0.25:
+            # one larger qudit control: value sets with three or more, unevenly spaced members only exist from d = 4
+            cdims = [int(rng.choice([4, 5, 6]))] + cdims[1:] if L.dim_of(shape) <= 4 else [int(rng.choice([4, 5]))]
         base = 100 + 10 * len(desc)
         cq = [cirq.LineQid(base + i, dimension=d) for i, d in enumerate(cdims)]
         mode = int(rng.integers(3))
